@@ -43,7 +43,7 @@ type c07Obs struct {
 
 func c07Scenario(p c07Params) Scenario {
 	var o *c07Obs
-	const fTag, fTag2 = 101, 102
+	const fTag, fTag2, fTag3 = 101, 102, 103
 	tTag := uint16(100)
 	if p.Notag {
 		tTag = 0xFFFF // the server does not reserve NOTAG: an ordinary request may carry it
@@ -111,6 +111,10 @@ func c07Scenario(p c07Params) Scenario {
 		case "flushflush":
 			o.flushTag = []uint16{fTag2} // fTag is itself flushed: at most one Rflush for it
 			s.c.Send(p.Dotu, o.target, flush(fTag, tTag), flush(fTag2, fTag))
+		case "flushflush2":
+			// two flushes of the same Tflush: both are owed an Rflush
+			o.flushTag = []uint16{fTag2, fTag3}
+			s.c.Send(p.Dotu, o.target, flush(fTag, tTag), flush(fTag2, fTag), flush(fTag3, fTag))
 		case "sametag":
 			o.flushTag = []uint16{fTag}
 			s.c.Send(p.Dotu, older)
@@ -212,7 +216,7 @@ func c07Scenario(p c07Params) Scenario {
 				}
 			case f.Msg.Tag == tTag:
 				treply = append(treply, f)
-			case f.Msg.Tag == fTag || f.Msg.Tag == fTag2:
+			case f.Msg.Tag == fTag || f.Msg.Tag == fTag2 || f.Msg.Tag == fTag3:
 				return v("flush-answered-with/"+wire.Names[f.Msg.Type], fmt.Sprintf("Tflush answered by %s", f.Msg))
 			default:
 				return v("stray-reply", fmt.Sprintf("reply with unexpected tag: %s", f.Msg))
@@ -223,7 +227,7 @@ func c07Scenario(p c07Params) Scenario {
 				return v(fmt.Sprintf("rflush-count-%d/stage=%s", nrflush[t], p.Stage), fmt.Sprintf("Tflush tag %d got %d Rflush replies (parked: %+v)", t, nrflush[t], x.Parked))
 			}
 		}
-		if p.Stage == "flushflush" && nrflush[fTag] > 1 {
+		if (p.Stage == "flushflush" || p.Stage == "flushflush2") && nrflush[fTag] > 1 {
 			return v("rflush-count-2/flushed-flush", "a flushed Tflush got more than one Rflush")
 		}
 		nT := 1
@@ -374,6 +378,16 @@ func c07Scenarios(tier string) []Scenario {
 		add(c07Params{Kind: k, Stage: "twoflush", FlushMode: "none", Maxpend: 1, P: 2})
 		add(c07Params{Kind: k, Stage: "twoflush", FlushMode: "cancel", Gated: true, Rel: "late", P: 2})
 		add(c07Params{Kind: k, Stage: "flushflush", FlushMode: "none", Gated: true, Rel: "late", Dotu: true, P: 2})
+		ffP := 1 // four requests and their flush workers: one preemption in the quick tier
+		if tier == "thorough" {
+			ffP = 2
+		}
+		if tier == "thorough" || k == "read" {
+			add(c07Params{Kind: k, Stage: "flushflush2", FlushMode: "none", Gated: true, Rel: "late", Maxpend: 1, P: ffP})
+		}
+		if tier == "thorough" || k == "walk" {
+			add(c07Params{Kind: k, Stage: "flushflush2", FlushMode: "cancel", Gated: true, Rel: "free", Dotu: true, P: ffP})
+		}
 		add(c07Params{Kind: k, Stage: "sametag", FlushMode: "none", Maxpend: 0, P: 2})
 		add(c07Params{Kind: k, Stage: "sametag", FlushMode: "cancel", Gated: true, Rel: "late", Maxpend: 2, Dotu: true, P: 2})
 		// the target carries tag 0xFFFF (NOTAG is not reserved by the server)
